@@ -95,6 +95,8 @@ class JsEmitter:
         if k in ("str", "ostr"):
             if t[1] == "u16":
                 return "u16s([%s])" % ", ".join(str(x) for x in v["data"])
+            if getattr(v["data"], "js16", None):
+                return "u16s([%s])" % ", ".join(str(x) for x in v["data"].js16)
             return json.dumps(bytes(v["data"]).decode("utf-8"))
         if k == "strs":
             if t[1] == "u16":
